@@ -138,7 +138,7 @@ def gen_image_data(rng):
     if k < 0.25:
         n = rng.randint(1, 24)
         return bytes(rng.randrange(256) for _ in range(n))
-    look = [b"EIx", b"EI0", b"EI\xff", b"EIEI1", b"E I", b"EEI_", b"xEIy", b" EIz", b"\nEI.", b"EI-", b"EI*", b"eI ", b"Ei ", b"E\nI ", b"IE "]
+    look = [b"EI\x0b", b" EI\x0bq", b"EIx", b"EI0", b"EI\xff", b"EIEI1", b"E I", b"EEI_", b"xEIy", b" EIz", b"\nEI.", b"EI-", b"EI*", b"eI ", b"Ei ", b"E\nI ", b"IE "]
     parts = []
     for _ in range(rng.randint(1, 4)):
         parts.append(rng.choice(look) if rng.random() < 0.6 else bytes(rng.randrange(256) for _ in range(rng.randint(0, 5))))
@@ -183,7 +183,7 @@ def gen_soup(rng, n, images=True):
 # valid content that is not an end-of-image marker (token count of each piece in the second component)
 LOOKALIKES = [(b"(BEI) Tj", 2), (b"(DREI) Tj", 2), (b"(EI) Tj", 2), (b"(a EI b) Tj", 2), (b"(x\nEI\n) '", 2), (b"/EI gs", 2), (b"/xEI gs", 2),
               (b"/EI/EI MP", 3), (b"% see EI here\n", 0), (b"%EI\r", 0), (b"[(xEI) 1 (EI ) -2] TJ", 7), (b"<</EI(EI)>> /P DP", 7), (b"(EI\\) EI ) Tj", 2)]
-FILLERS = [b"0", b"1.5", b"q", b"Q", b"/N", b"n", b"(s)", b"W*"]
+FILLERS = [b"0", b"1.5", b"q", b"Q", b"/N", b"n", b"(s)", b"W*", b"d0", b"d1"]
 II_HEAD = b"BI /W 1 /H 1 /BPC 8 /CS /G ID "
 
 
